@@ -1,5 +1,5 @@
 import vp
-NAMES = {1: "define_obj", 2: "define_fn", 3: "macro2_label", 4: "macro_nested", 5: "equ", 6: "repeat", 7: "include", 8: "macro3_twice", 9: "macro_instr_define_arg", 10: "char_args", 11: "prefix_names", 12: "prefix_names3"}
+NAMES = {1: "define_obj", 2: "define_fn", 3: "macro2_label", 4: "macro_nested", 5: "equ", 6: "repeat", 7: "include", 8: "macro3_twice", 9: "macro_instr_define_arg", 10: "char_args", 11: "prefix_names", 12: "prefix_names3", 13: "macro_in_repeat", 14: "define_through_nested_macros"}
 
 def jobs(tier):
     return [vp.Job("macros.%s" % NAMES[t], "macros.cpp", {"T": t}, max_paths=100000, timeout=600, min_completed=1) for t in sorted(NAMES)]
@@ -9,5 +9,5 @@ def main(tier):
         "Differential symbolic execution: a program using .define/.macro/equ/.repeat/.include and its hand expansion are both assembled by the real two-pass flow "
         "(tokenizer with its unget/push-back buffers, Macros, macro expansion stack, parse_repeat, include_parse over the in-memory file system) with symbolic argument values; "
         "Z3 decides that image, location counter and label-dependent data are identical.",
-        ["argument values 0..99 (decimal), templates T=1..12 in harness/macros.cpp: object/function-like defines, 2- and 3-parameter macros, nesting depth 2, macro before/after a label, equ, repeat count 1..3, one include file, parameter names that are prefixes of one another",
+        ["argument values 0..99 (decimal), templates T=1..14 in harness/macros.cpp: object/function-like defines, 2- and 3-parameter macros, nesting depth 2, macro before/after a label, equ, repeat count 1..3, one include file, parameter names that are prefixes of one another, a macro invoked inside .repeat (count 1..3), a define passed through two macro levels",
          "statement bodies are data directives and one MSP430 instruction form; deeper nesting and more parameters are outside the bound (limits are checked under C16)"])
